@@ -227,7 +227,17 @@ func (v *PacketDslVisitorImpl) VisitFieldDefinitionWithAttribute(ctx *gen.FieldD
 			if padChar == "'\\x00'" {
 				padChar = "'\x00'"
 			}
-			f.Attr.(*model.FixedStringFieldAttribute).Padding = &model.Padding{
+			fixed, ok := f.Attr.(*model.FixedStringFieldAttribute)
+			if !ok {
+				v.BinModel.AddSyntaxError(&model.SyntaxError{
+					Line:            ctx.GetStart().GetLine(),
+					Column:          ctx.GetStart().GetTokenSource().GetCharPositionInLine(),
+					Msg:             "Padding attribute can only be declared on a fixed string field: " + f.Name,
+					OffendingSymbol: nil,
+				})
+				continue
+			}
+			fixed.Padding = &model.Padding{
 				PadChar: padChar,
 				PadLeft: strings.Contains(fieldAttr.PaddingAttribute().PADDING_ATTR().GetText(), "left"),
 			}
